@@ -44,6 +44,17 @@ def tasks(tier, seed):
         for k in range(3):
             out.append({"key": f"n3/superadditive_cached/exploitability/K={','.join(map(str, K))}/size={k}/anyclass", "n": 3, "K": K, "k": k,
                         "computer": "superadditive_cached", "gap": "exploitability", "anyclass": True})
+    # underlying environments with additional initially known coalitions - in particular a whole size class in the MIDDLE of the explorable
+    # range (n=5: all triples known, sizes 2 and 4 explorable), and one where only a single size is left
+    triples5 = [S for S in range(32) if F.popcount(S) == 3]
+    pairs4 = [S for S in range(16) if F.popcount(S) == 2]
+    for n_, init, Ks in ((5, triples5, ([], [30, 29, 27])), (4, pairs4, ([], [7])), (4, [3, 7], ([], [5]))):
+        for K in Ks:
+            for k in range(2, n_):
+                if n_ == 5 and (k == 2 or (k == 4 and not K)) and tier == "quick":
+                    continue          # ten candidates of that size: ten forks of a five-player run (thorough only)
+                out.append({"key": f"init/n{n_}/init#{len(init)}/K={','.join(map(str, K))}/size={k}", "n": n_, "K": K, "k": k, "init": init,
+                            "computer": "superadditive_cached", "gap": "l1_norm"})
     # consecutive linear steps with NO mask query in between (a cached mask must not go stale)
     for n in (3, 4):
         sizes = list(range(2, n))
@@ -109,7 +120,7 @@ def scenario(pk, params, inp):
     mod.np = _shim(old_np, rand)
     try:
         game = pk.game.IncompleteCooperativeGame(n, pk.bounds.BOUNDS[params["computer"]])
-        inner = pk.icg_gym.ICG_Gym(game, gen, [C(S) for S in F.minimal(n)], gap_functions(pk)[params["gap"]])
+        inner = pk.icg_gym.ICG_Gym(game, gen, [C(S) for S in F.minimal(n)] + [C(S) for S in params.get("init", [])], gap_functions(pk)[params["gap"]])
         lin = mod.ICG_Gym_Linear(inner)
         obs0, _ = lin.reset()
         ex = [c.id for c in inner.explorable_coalitions]
@@ -169,8 +180,9 @@ def _per_size(lg, vec, ex, n):
 def claims(params, inp, out, lg):
     n, k = params["n"], params["k"]
     ex = out["explorable"]
-    known = set(F.minimal(n)) | set(params["K"])
-    cl = [("reset-observation-length-n", out["reset_len"] == n)]
+    known = set(F.minimal(n)) | set(params["K"]) | set(params.get("init", []))
+    cl = [("reset-observation-length-n", out["reset_len"] == n),
+          ("explorable-are-the-initially-unknown", ex == [S for S in range(2 ** n) if S not in set(F.minimal(n)) | set(params.get("init", []))])]
     ref0 = _per_size(lg, out["reset_inner"], ex, n)
     cl.append(("reset-observation-per-size-sum", lg.And([lg.eq(a, b) for a, b in zip(out["reset_obs"], ref0)])))
     if "blind_steps" in out:
